@@ -53,3 +53,15 @@ CHECKS += [
      "note": _NOTE + "; bool / numpy-integer indices and tuple/str subclasses are left unjudged as the statement does not settle them"},
 ]
 NOT_APPLICABLE = [x for x in NOT_APPLICABLE if x["property_id"] not in {c["id"] for c in CHECKS}]
+
+CHECKS += [
+    {"id": "C06", "design": "DESIGN.md#c06-composition",
+     "technique": "runtime contracts on compose_qoperations (every binary step and every n-ary fold), MProcess.to_povm and Povm.generate_mprocess with a reference super-operator algebra; exhaustive enumeration of type patterns and bracketings of chains",
+     "text": "Every binary composition step (12 type pairs) and n-ary fold is judged against the same chain evaluated on operators by the reference (Kraus action, Born rule, Heisenberg picture, probabilities with normalised post-states, eps_zero truncation accepted either way); every type-valid chain [S](G|M)*[P] of length 2..4 (thorough 5) is evaluated through every Catalan bracketing plus flat/list calls and all must agree as arrays with the reference joint distribution laid out earliest-measurement-first (factors have pairwise different outcome counts); results of physical operands must be physical; generate_mprocess modes 0/1/2 induce the POVM and the prescribed post-states.",
+     "note": _NOTE + "; one known finding (post-state of an outcome with eps_zero < p <~ 1e-3 fails the physicality validation through amplified round-off) is listed in known_findings.json"},
+    {"id": "C07", "design": "DESIGN.md#c07-tensor-products-and-embeddings",
+     "technique": "runtime contracts on tensor_product (all type pairs, inner recursive calls included) and embed_qoperation_from_qutrits_to_qubits against Kronecker products arranged by subsystem name; enumeration of argument orders and groupings",
+     "text": "Every tensor_product execution is judged: sorted subsystem union, operator = Kronecker product of the factors arranged by name (channels as Liouville matrices), reported outcome shape a permutation of the factors' pairwise different counts with each multi-index element equal to the Kronecker product of the factors' elements; product states stay product, product gates act factor-wise, product measurements give product statistics; all argument orders x grouping trees for 2-4 named subsystems of dimensions 2/3 with non-contiguous names. Embedding: physicality preserved and Born statistics of embedded (state, gate|mprocess, povm) chains unchanged.",
+     "note": _NOTE + "; two known findings (MProcess (x) MProcess element layout vs reported shape; joint POVM factor on non-adjacent subsystems raises) are listed in known_findings.json; channel products limited to <= 3 qubits / 2 qutrits by memory"},
+]
+NOT_APPLICABLE = [x for x in NOT_APPLICABLE if x["property_id"] not in {c["id"] for c in CHECKS}]
